@@ -44,14 +44,24 @@ func code[T constraints.Integer](a int64) T {
 func minAmp[T constraints.Integer]() int64 { return -(int64(1) << (widthOf[T]() - 1)) }
 func maxAmp[T constraints.Integer]() int64 { return int64(^uint64(0) >> (65 - widthOf[T]())) }
 
-// conv2 converts two samples with the real function, either as two frames of a mono buffer or as the
-// two channels of one frame (case split: value-level behaviour must not depend on the layout).
+// conv2 converts two samples with the real function. Case split over the layout: two frames of a mono
+// buffer, the two channels of one frame, or buffers handed out again by a pool after a put (value-level
+// behaviour must not depend on layout or on the buffers' history). The destination holds stale samples.
 func conv2[S, D signal.SignalTypes](conv func(*signal.Buffer[S], *signal.Buffer[D]) int, x0, x1 S) (D, D) {
 	a := signal.Allocator{Channels: 1, Length: 2, Capacity: 2}
-	if vf.PickOnce("layout", 0, 1) == 1 {
+	layout := vf.PickOnce("layout", 0, 2)
+	if layout == 1 {
 		a = signal.Allocator{Channels: 2, Length: 1, Capacity: 1}
 	}
 	src, dst := signal.Alloc[S](a), signal.Alloc[D](a)
+	if layout == 2 {
+		ps, pd := signal.PoolAlloc[S](a), signal.PoolAlloc[D](a)
+		ps.Put(ps.Get())
+		pd.Put(pd.Get())
+		src, dst = ps.Get(), pd.Get()
+	}
+	dst.SetSample(0, 1)
+	dst.SetSample(1, 1)
 	src.SetSample(0, x0)
 	src.SetSample(1, x1)
 	n := conv(src, dst)
